@@ -50,3 +50,7 @@ pub use execution::verif_hooks as verif_execution;
 #[cfg(scylla_verif)]
 #[allow(missing_docs)]
 pub use execution::verif_hooks_speculative as verif_execution_speculative;
+
+#[cfg(scylla_verif)]
+#[allow(missing_docs)]
+pub use crate::network::verif_pager;
